@@ -288,3 +288,41 @@ def run(ctx, rep):
     # (shared with C02-R6 / C09-R2; seeded change C10-s4)
     import rules.c02 as c02
     c02.same_security(R, rep, "R5")
+    lots_restated_whole(R, rep)
+
+
+def lots_restated_whole(R, rep, rule="R6"):
+    """R6 (a lot is restated as a whole or not at all): a function that re-writes the size of an acquisition lot (any write to the
+    field the availability accessor starts from, other than the lot's construction) re-writes every share counter booked against
+    it as well. Size and counters are in one unit; rescaling `original_amount` at a SPLIT while `consumed` stays in pre-split
+    shares makes a fully sold lot look half held, and a later capital return is apportioned to ghost shares (seeded change
+    C10-s8). Expected count on today's tree: zero writes — the pre-pass does not rescale at all (known finding R4)."""
+    import rules.c02 as c02
+    from core import Report
+    tmp = Report("tmp")
+    c02.lot_accounting(R, tmp)
+    lf = getattr(R, "_lot_fields", None)
+    if not lf:
+        rep.unresolved(rule, "LOT-FIELDS", "the share-count fields of the lot could not be determined")
+        return
+    size, counters = lf
+    from roles import LOT
+    bad = R.partial_restatements(LOT, size, counters)
+    rep.ob(rule, "lot:restated-whole", not bad,
+           f"no function re-writes a lot's size ({size}) without its counters ({counters})" if not bad else
+           "; ".join(f"{b.short} re-writes {written} of a lot but not {missing}: what the lot says is still held changes by more than the ratio" for b, site, written, missing in bad[:3]),
+           bad[0][1] if bad else "", key=f"{rule}:lot:partial-restatement" + (":" + bad[0][0].short if bad else ""))
+    rep.count(f"{rule}_lot_share_fields", {"size": size, "counters": counters})
+
+
+def controls(pctx, rep):
+    from roles import Roles as _Roles
+    F = pctx.F
+    try:
+        R = _Roles(F)
+        bodies = [F.one("plot_rescale_partial"), F.one("plot_rescale_whole")]
+        bad = R.partial_restatements("posctl::PLot", ["size"], ["used", "kept"], bodies)
+        ok = [b.short.split("::")[-1] for b, _, _, _ in bad] == ["plot_rescale_partial"] and sorted(bad[0][3]) == ["kept", "used"]
+        rep.control("R6:partial-restatement", ok, f"posctl: partial restatements = {[(b.short, m) for b, _, _, m in bad]} (expected plot_rescale_partial missing kept, used)")
+    except Exception as e:
+        rep.control("R6:partial-restatement", False, f"partial-restatement detector failed on posctl: {e}")
